@@ -47,6 +47,31 @@ let eval (input : Sx.t) (obs : Sx.t) : Sx.t list * bool * bool * string =
     | _ -> [x]) in
   let ops = List.map (op_of (not plain)) (List.concat_map expand (Sx.args (Sx.field "ops" input))) in
   let outs = List.map (fun o -> List.map ev_of (Sx.list o)) (Sx.args (Sx.field "outs" obs)) in
+  match Sx.field_opt "outer" input with
+  | Some outer ->
+      (* a writer over a writer: W1 = NewResponseWriter(m1, spy) lives through the outer ops, then
+         W2 = NewResponseWriter(m2, W1) gets the ops (RWStack.v) *)
+      let head1 = bool_of (List.hd (Sx.args (Sx.field "head" outer))) in
+      let pre = List.map (op_of (not plain)) (Sx.args (Sx.field "ops" outer)) in
+      let pre_outs = List.map (fun o -> List.map ev_of (Sx.list o)) (Sx.args (Sx.field "pre" obs)) in
+      let sx_outs tag l = Sx.L (Sx.A tag :: List.map (fun es -> Sx.L (List.map sx_ev es)) l) in
+      let m = RWStack.stack_run head1 head pre ops in
+      let sx_m = [sx_outs "outs" m; sx_outs "pre" (run head1 pre)] in
+      (* the property, read off the observation: over the whole life of the stack the spy gets at most one status
+         line and gets it before any body byte or flush; W2 answers like a fresh writer of its own *)
+      let all = List.concat pre_outs @ List.concat outs in
+      let nwh = List.length (List.filter (function UWriteHeader _ -> true | _ -> false) all) in
+      let rec first seen = function
+        | [] -> true
+        | UWriteHeader _ :: t -> first true t
+        | (UWrite _ | UFlush) :: t -> seen && first seen t
+        | _ :: t -> first seen t in
+      let ans l = List.filter (function AStatus _ | ASize _ | AWritten _ -> true | _ -> false) (List.concat l) in
+      let spec = nwh <= 1 && first false all && ans outs = ans (run head (List.map (RWStack.view head1) ops)) in
+      let written1 = List.exists (function OWriteHeader _ | OWrite _ | OFlush _ -> true | _ -> false) pre in
+      (sx_m, spec, written1 || List.exists (function OBefore _ -> true | _ -> false) ops,
+       "stacked/" ^ (if written1 then "lower-written" else "lower-fresh") ^ (if head then "/HEAD" else ""))
+  | None ->
   let m = run head ops in
   let sx_m = Sx.L (Sx.A "outs" :: List.map (fun es -> Sx.L (List.map sx_ev es)) m) in
   let spec = spec_ok head ops outs in
